@@ -787,6 +787,8 @@ static void run_path(int ntok, char **tok)
 	MPT_STRUCT(path) p = MPT_PATH_INIT;
 	unsigned sep = 0, asg = 0;
 	int i = 4, forked = 0;
+	const char *strbuf = 0;
+	size_t strn = 0;
 	sscanf(tok[2], "%2x", &sep);
 	sscanf(tok[3], "%2x", &asg);
 	p.sep = (char) sep;
@@ -804,6 +806,7 @@ static void run_path(int ntok, char **tok)
 				buf = (char *) malloc(n + 1);
 				if (n) memcpy(buf, b, n);
 				buf[n] = 0;
+				strbuf = buf; strn = n + 1;
 			}
 			r = mpt_path_set(&p, buf, len);
 			show_path(&p, r, 1);
@@ -821,6 +824,7 @@ static void run_path(int ntok, char **tok)
 				buf = (char *) malloc(n + 1);
 				if (n) memcpy(buf, b, n);
 				buf[n] = 0;
+				strbuf = buf; strn = n + 1;
 			}
 			if (strcmp(st, "~")) { sscanf(st, "%2x", &c); p.sep = (char) c; }
 			if (strcmp(at, "~")) { sscanf(at, "%2x", &c); p.assign = (char) c; }
@@ -849,6 +853,22 @@ static void run_path(int ntok, char **tok)
 		else if (!strcmp(op, "fork")) { forked = 1; show_path(&p, 0, 0); }
 		else { fprintf(stderr, "bad op %s\n", op); _exit(3); }
 		if (forked) vh_add(";o1");
+	}
+	/* the end of the path's life: storage the path does not point into the caller's string for is an array of
+	 * the library; mpt_path_fini must release it exactly once.  The harness holds a second reference over the
+	 * call: released once = no longer shared afterwards (twice: the harness's own release hits freed memory) */
+	{
+		MPT_STRUCT(buffer) *buf = 0;
+		if (p.base && !(strbuf && p.base >= strbuf && p.base < strbuf + strn)) {
+			buf = ((MPT_STRUCT(buffer) *) p.base) - 1;
+			buf->_vptr->addref(buf);
+		}
+		mpt_path_fini(&p);
+		if (!buf) vh_tok("fin:ok");
+		else {
+			vh_tok((buf->_vptr->get_flags(buf) & MPT_ENUM(BufferShared)) ? "fin:leak" : "fin:ok");
+			buf->_vptr->unref(buf);
+		}
 	}
 }
 
